@@ -482,6 +482,8 @@ func main() {
 			checkTables(r, t)
 		case "regeneration":
 			checkRegeneration(r)
+		case "scaling":
+			checkScaling(r, t)
 		default:
 			_, _, prods, _, _ := parser.VerifGrammar()
 			di := &implDriver{stack: []int{0}}
@@ -523,6 +525,81 @@ func main() {
 	r.Set("bound_sequence_length", maxLen)
 	r.Set("bound_sequence_length_real_driver", realLen)
 	checkLanguage(r, t, maxLen, realLen)
+	checkScaling(r, t)
 	r.Assume("the documented grammar and precedence list are transcribed in ref/ebnfref (Heads/Bodies) and cmd/c04 (levels); the reference LALR(1) construction is ref/lrref; the recursive-descent recogniser is ref/ebnfref.ParseTokens")
 	r.Finish()
+}
+
+// checkScaling: long sentences of simple shape (every size 1..130, then 200, 500, 1000, 2000) must be accepted by the
+// real lexer + Parser.Parse and by the embedded tables exactly as the documented grammar says, with the documented
+// reduction sequence. Short sentences cannot reach depth- or length-related limits of the driver.
+func checkScaling(r *ev.Run, t *lrref.Table) {
+	_, _, prods, _, _ := parser.VerifGrammar()
+	var sizes []int
+	for n := 1; n <= 130; n++ {
+		sizes = append(sizes, n)
+	}
+	sizes = append(sizes, 200, 500, 1000)
+	if !r.Quick() {
+		sizes = append(sizes, 2000, 5000)
+	}
+	k := 0
+	ebnfref.Scaling(sizes, func(text, family string, n int) {
+		k++
+		if !r.MineIdx(k) || r.Expired() {
+			return
+		}
+		in := map[string]any{"Kind": "scaling", "Family": family, "N": n}
+		toks, lerr := ebnfref.Tokenize(text)
+		if lerr != nil {
+			ev.Fatal("scaling text not tokenizable: %v", lerr)
+		}
+		root, serr := ebnfref.ParseTokens(toks)
+		if serr != nil {
+			ev.Fatal("scaling text %s/%d not a specification: %v", family, n, serr)
+		}
+		r.Add("scaling_sentences", 1)
+		r.Distinct(fmt.Sprintf("scaling/%s/%d", family, n))
+		var want []int
+		root.Walk(func(*ebnfref.LexToken) {}, func(nd *ebnfref.Node) { want = append(want, nd.Prod) })
+		// embedded tables through the harness driver
+		di := &implDriver{stack: []int{0}}
+		okI := true
+		for _, tk := range toks {
+			if ok, _ := di.feed(tk.Kind, prods); !ok {
+				okI = false
+				break
+			}
+		}
+		accI := false
+		if okI {
+			_, accI = di.feed(lrref.End, prods)
+		}
+		if !accI {
+			r.Report("", fmt.Sprintf("the embedded tables reject a sentence of the documented grammar: %s with n=%d (%d tokens)", family, n, len(toks)), in)
+		} else if fmt.Sprint(di.reds) != fmt.Sprint(want) {
+			r.Report("", fmt.Sprintf("the embedded tables reduce a long sentence differently from the documented disambiguation: %s with n=%d", family, n), in)
+		}
+		// the real driver
+		var got []int
+		var perr error
+		var pan any
+		func() {
+			defer func() { pan = recover() }()
+			p, err := parser.New("f", strings.NewReader(text))
+			if err != nil {
+				perr = err
+				return
+			}
+			perr = p.Parse(nil, func(i int) error { got = append(got, i); return nil })
+		}()
+		switch {
+		case pan != nil:
+			r.Report("", fmt.Sprintf("Parser.Parse panics on a sentence of the documented grammar: %s with n=%d: %v", family, n, pan), in)
+		case perr != nil:
+			r.Report("", fmt.Sprintf("Parser.Parse rejects a sentence of the documented grammar: %s with n=%d (%d tokens): %v", family, n, len(toks), perr), in)
+		case fmt.Sprint(got) != fmt.Sprint(want):
+			r.Report("", fmt.Sprintf("Parser.Parse reduces a long sentence differently from the documented disambiguation: %s with n=%d", family, n), in)
+		}
+	})
 }
